@@ -52,7 +52,7 @@ def run(ctx):
             ctx.bad("R08.1", "%s|signature" % f.name, "update takes (value option, ttl option, remove flag)", f.where(), str(ptys))
             continue
         pr, pt, pv = p_remove[0], p_ttl[0], p_val[0]
-        calc_stop = lambda n_: n_.endswith("::calculate_expiry") or (F.fns.get(n_) is not None and F.fns[n_].rec.get("ret") == "std::time::SystemTime")
+        calc_stop = lambda n_: n_.endswith("::calculate_expiry") or (F.fns.get(n_) is not None and F.fns[n_].kind != "Closure" and F.fns[n_].rec.get("ret") == "std::time::SystemTime")
         for p in ipaths(F, f, stop=calc_stop, depth=2):
             rem = [a[2] for a in p.atoms if a[0] == "bool" and a[1] == ("param", pr)]
             tv_ = p.variant_of(("param", pt))
@@ -387,6 +387,19 @@ def run(ctx):
             ctx.check(params_ok and clock_ok, "R08.9", "%s|request-forwarded-unchanged" % g.name,
                       "the value, the ttl and the remove flag reach the entry update exactly as they were passed in (not filtered, defaulted or replaced), with the store's clock",
                       g.where(b), str([fmt(a) for a in args[1:]]))
+
+    # ---- R08.10 an upsert of a key that reads as absent acts exactly as the put: the in-place update attempt itself neither
+    # removes nor inserts a store entry (retiring a dead incarnation - entry, weight, index entry together - is the
+    # worker's job when the queued put runs; a removal here leaves the old weight and the old index entry behind)
+    for g in [F.fn(n) for n in sorted(upd_store)]:
+        muts = []
+        for p_ in ipaths(F, g, stop=lambda n: False, depth=3):
+            for e in p_.events:
+                dc = dashmap_call(e.t)
+                if dc and dc[1] == "S" and dc[0] in ("remove", "remove_if", "remove_if_mut", "insert", "clear", "retain"):
+                    muts.append("%s in %s" % (dc[0], e.fn.name.split("::")[-1]))
+        ctx.check(not muts, "R08.10", "%s|update-attempt-neither-removes-nor-inserts" % g.name,
+                  "the in-place update attempt changes an entry it found alive or nothing at all: it never removes or inserts store entries", g.where(), "; ".join(sorted(set(muts))[:3]))
 
     # ---- R08.7 in-place update agrees with readability -------------------------------------------------------
     for g, bb, t in S.lookup_sites:
